@@ -210,9 +210,8 @@ inline constexpr void Conversion<Unit::SpecificEnergy, Unit::SpecificEnergy::Inc
 }
 
 template <typename NumericType>
-inline const std::
-    map<Unit::SpecificEnergy, std::function<void(NumericType* values, const std::size_t size)>>
-        MapOfConversionsFromStandard<Unit::SpecificEnergy, NumericType>{
+inline constexpr auto MapOfConversionsFromStandard<Unit::SpecificEnergy, NumericType>{
+  MakeConversionTable<Unit::SpecificEnergy, NumericType>({
           {Unit::SpecificEnergy::JoulePerKilogram,
            Conversions<Unit::SpecificEnergy, Unit::SpecificEnergy::JoulePerKilogram>::
                FromStandard<NumericType>},
@@ -225,12 +224,12 @@ inline const std::
           {Unit::SpecificEnergy::InchPoundPerSlinch,
            Conversions<Unit::SpecificEnergy, Unit::SpecificEnergy::InchPoundPerSlinch>::
                FromStandard<NumericType>},
+})
 };
 
 template <typename NumericType>
-inline const std::map<Unit::SpecificEnergy,
-                      std::function<void(NumericType* const values, const std::size_t size)>>
-    MapOfConversionsToStandard<Unit::SpecificEnergy, NumericType>{
+inline constexpr auto MapOfConversionsToStandard<Unit::SpecificEnergy, NumericType>{
+  MakeConversionTable<Unit::SpecificEnergy, NumericType>({
       {Unit::SpecificEnergy::JoulePerKilogram,
        Conversions<Unit::SpecificEnergy, Unit::SpecificEnergy::JoulePerKilogram>::
            ToStandard<NumericType>},
@@ -243,6 +242,7 @@ inline const std::map<Unit::SpecificEnergy,
       {Unit::SpecificEnergy::InchPoundPerSlinch,
        Conversions<Unit::SpecificEnergy, Unit::SpecificEnergy::InchPoundPerSlinch>::
            ToStandard<NumericType>},
+})
 };
 
 }  // namespace Internal
